@@ -13,6 +13,7 @@ The property predicates are evaluated on the implementation's own files, indepen
 """
 from __future__ import annotations
 
+import contextlib
 import copy
 import itertools
 import math
@@ -114,7 +115,7 @@ def gen_path_case(rng, big=False):
 
 
 def build_path(case, root, Path, System):
-    p = Path(maxlen=10000)
+    p = Path(maxlen=case.get("maxlen", 10000))
     made = set()
     for fr in case["frames"]:
         d = os.path.join(root, fr["dir"])
@@ -125,11 +126,9 @@ def build_path(case, root, Path, System):
                 fh.write(f"content of {fr['dir']}/{fr['base']}\n")
             made.add(full)
         s = System()
-        s.order = [k / 1e6 for k in fr["order"]]
+        s.order, s.vpot, s.ekin = frame_floats(fr)
         s.config = (full, fr["idx"])
         s.vel_rev = fr["rev"]
-        s.vpot = None if fr["vpot"] is None else fr["vpot"] / 1e6
-        s.ekin = None if fr["ekin"] is None else fr["ekin"] / 1e6
         p.phasepoints.append(s)
     p.generated = case["gen"]
     p.path_number = case["pn"]
@@ -187,12 +186,148 @@ def roundtrip_predicate(case, path, accdir, root):
             return f"frame {i}: index {s.config[1]} ≠ {f['idx']}"
         if bool(s.vel_rev) != f["rev"]:
             return f"frame {i}: vel_rev {s.vel_rev} ≠ {f['rev']}"
-        if [float(o) for o in s.order] != [k / 1e6 for k in f["order"]]:
-            return f"frame {i}: order {list(s.order)} ≠ {[k / 1e6 for k in f['order']]}"
-        for key in ("vpot", "ekin"):
-            if f[key] is not None and (getattr(s, key) is None or float(getattr(s, key)) != f[key] / 1e6):
-                return f"frame {i}: {key} {getattr(s, key)} ≠ {f[key] / 1e6}"
+        order, vpot, ekin = frame_floats(f)
+        want = [six(o) for o in order]
+        got = [float(o) for o in s.order]
+        if len(got) != len(want) or not all(same_float(a, b) for a, b in zip(got, want)):
+            return f"frame {i}: order {got} ≠ {want} (the six decimals written)"
+        for key, val in (("vpot", vpot), ("ekin", ekin)):
+            if val is not None and not math.isnan(val) and (getattr(s, key) is None or float(getattr(s, key)) != six(val)):
+                return f"frame {i}: {key} {getattr(s, key)} ≠ {six(val)}"
     return None
+
+
+# --------------------------------------------------------------------------- text level (characters)
+NAMES3 = ("traj.txt", "order.txt", "energy.txt")
+
+
+def frame_floats(fr):
+    """the Python floats a frame of a case stands for: 'order'/'vpot'/'ekin' are integers k (the float k/1e6),
+    'of'/'vf'/'kf' (if present) are float.hex() strings or None / 'nan' — used for values that are not k·10⁻⁶"""
+    def one(h):
+        return None if h is None else float("nan") if h == "nan" else float.fromhex(h)
+    order = [one(h) for h in fr["of"]] if "of" in fr else [k / 1e6 for k in fr["order"]]
+    vpot = one(fr["vf"]) if "vf" in fr else (None if fr["vpot"] is None else fr["vpot"] / 1e6)
+    ekin = one(fr["kf"]) if "kf" in fr else (None if fr["ekin"] is None else fr["ekin"] / 1e6)
+    return order, vpot, ekin
+
+
+def fin(x):
+    """a float as the text-level model takes it: NaN, or sign bit and exact magnitude"""
+    from fractions import Fraction
+    if x is None:
+        return "-"
+    x = float(x)
+    if math.isnan(x):
+        return "n"
+    fr = Fraction(abs(x))
+    return ("-" if math.copysign(1.0, x) < 0 else "+") + f"{fr.numerator}/{fr.denominator}"
+
+
+def six(x):
+    """what the property demands of a reloaded number: the float of the six decimals written"""
+    return float(f"{float(x):.6f}")
+
+
+def same_float(a, b):
+    return (math.isnan(a) and math.isnan(b)) or a == b
+
+
+def fval_tok(x):
+    """a loaded float as the text-level driver shows it: sign and magnitude ×10⁶"""
+    if x is None:
+        return "-"
+    x = float(x)
+    if math.isnan(x):
+        return "nan"
+    return ("-" if math.copysign(1.0, x) < 0 else "+") + str(round(abs(x) * 1e6))
+
+
+def show_loaded_t(path, accdir):
+    out = []
+    for s in path.phasepoints:
+        d, b = os.path.split(s.config[0])
+        if os.path.normpath(d) != os.path.normpath(accdir):
+            b = "OUTSIDE:" + s.config[0]
+        out.append(f"{hexs(b)},{s.config[1]},{1 if s.vel_rev else 0},{':'.join(fval_tok(o) for o in s.order)},{fval_tok(s.vpot)},{fval_tok(s.ekin)}")
+    return " ".join([("-" if path.maxlen is None else str(path.maxlen)), str(len(out))] + out)
+
+
+def raw_files(pdir):
+    out = {}
+    for n in NAMES3:
+        f = os.path.join(pdir, n)
+        if os.path.isfile(f):
+            with open(f, "rb") as fh:
+                out[n] = fh.read()
+        else:
+            out[n] = None
+    return out
+
+
+def hexb(b):
+    return "-" if not b else b.hex()
+
+
+def storeT_line(case, maxlen, deflim, fill="p"):
+    out = ["storeT", "-" if maxlen is None else str(maxlen), "-" if deflim is None else str(deflim), fill,
+           str(case["step"]), hexs(str(case["gen"])), str(len(case["frames"]))]
+    for fr in case["frames"]:
+        order, vpot, ekin = frame_floats(fr)
+        out += [hexs(fr["dir"]), hexs(fr["base"]), "-" if fr["idx"] is None else str(fr["idx"]), "1" if fr["rev"] else "0",
+                lst(order, fin), fin(vpot), fin(ekin)]
+    return " ".join(out)
+
+
+def loadT_line(acc, raw, deflim=None, fill="p"):
+    return " ".join(["loadT", "-" if deflim is None else str(deflim), fill, lst(acc, hexs)]
+                    + ["!" if raw[n] is None else hexb(raw[n]) for n in NAMES3])
+
+
+def in_reader_domain(raw):
+    """False if some token is accepted by Python's int()/float() but lies outside the model's reader domain
+    (−?digits, −?digits.dddddd, nan), or the text is not ASCII"""
+    import io
+    for n in NAMES3:
+        if raw[n] is None:
+            continue
+        try:
+            text = raw[n].decode("ascii")
+        except UnicodeDecodeError:
+            return False
+        for line in io.StringIO(text, newline=None):
+            sl = line.strip()
+            if sl.startswith("#"):
+                continue
+            toks = sl.split()
+            for k, t in enumerate(toks):
+                if INT_RE.match(t) or FIX_RE.match(t) or t == "nan":
+                    continue
+                if n == "traj.txt" and k == 1:
+                    continue
+                try:
+                    float(t)
+                    return False
+                except ValueError:
+                    pass
+    return True
+
+
+def compare_text_store(ctx, case, raw, acc, moved, loaded_t, out_line, fn="storeT"):
+    """byte-for-byte comparison of the three files with the text-level model, plus accepted/, the returned path and
+    the reloaded path"""
+    secs = dict((x[:1], x[2:].strip()) for x in out_line.split(" | "))
+    for name, key in (("traj.txt", "T"), ("order.txt", "O"), ("energy.txt", "E")):
+        if hexb(raw[name]) != secs[key]:
+            model_text = bytes.fromhex("" if secs[key] == "-" else secs[key]).decode("latin1")
+            ctx.disagree({"fn": fn + ":" + name + " (text)", "case": case}, (raw[name] or b"").decode("latin1"), model_text)
+    model_acc = sorted(bytes.fromhex(x).decode("latin1") for x in secs["A"].split())
+    if model_acc != acc:
+        ctx.disagree({"fn": fn + ":accepted", "case": case}, acc, model_acc)
+    if moved is not None and secs["M"] != moved:
+        ctx.disagree({"fn": fn + ":returned-path(maxlen,length)", "case": case}, moved, secs["M"])
+    if loaded_t is not None and secs["L"] != loaded_t:
+        ctx.disagree({"fn": "loadT∘storeT", "case": case}, loaded_t, secs["L"])
 
 
 DAMAGE = ["no-energy", "no-order", "no-traj", "drop-moved-file", "drop-order-row", "drop-traj-row", "word-in-order",
@@ -294,6 +429,652 @@ def forced_cases():
     ]
 
 
+# --------------------------------------------------------------------------- part A, limits
+@contextlib.contextmanager
+def default_maxlen(value):
+    """Lower the DEFAULT limit of `Path()` from the harness side for the duration of one call.
+    The default is bound at definition time (`def __init__(self, maxlen=DEFAULT_MAXLEN, …)`), so it lives in
+    `Path.__init__.__defaults__`; the module constant is patched as well in case the code looks it up at run time.
+    `value=None`: leave everything as it is (the real 100 000)."""
+    if value is None:
+        yield True
+        return
+    import infretis.classes.path as pmod
+    Path = pmod.Path
+    old_def = Path.__init__.__defaults__
+    old_const = getattr(pmod, "DEFAULT_MAXLEN", None)
+    try:
+        if old_def:
+            Path.__init__.__defaults__ = (value,) + tuple(old_def[1:])
+        if old_const is not None:
+            pmod.DEFAULT_MAXLEN = value
+        try:
+            ok = Path().maxlen == value
+        except Exception:  # noqa: BLE001
+            ok = False
+        yield ok
+    finally:
+        Path.__init__.__defaults__ = old_def
+        if old_const is not None:
+            pmod.DEFAULT_MAXLEN = old_const
+
+
+def expand_case(case):
+    """a case is either written out (`frames`) or, for the long paths, a compact spec that is expanded
+    deterministically (so that a replay file stays small)"""
+    if "frames" in case:
+        return case
+    sp = case["spec"]
+    n, nfiles, ncv = sp["n"], sp["nfiles"], sp.get("ncv", 1)
+    frames = []
+    for i in range(n):
+        k = (i * nfiles) // n
+        first = (k * n + nfiles - 1) // nfiles
+        nxt = ((k + 1) * n + nfiles - 1) // nfiles
+        back = k == 0
+        frames.append({"dir": f"w{k % 2}", "base": f"e1_{k}_traj{'B' if back else 'F'}.xyz",
+                       "idx": (nxt - 1 - i) if back else (i - first), "rev": back,
+                       "order": [((i * 7919) % 2000003) - 1000000 + c for c in range(ncv)],
+                       "vpot": None if sp.get("energies") == "some" and i % 3 else -10000000 + 250000 * (i % 17),
+                       "ekin": None if sp.get("energies") == "some" and i % 3 else 125000 * (i % 11)})
+    out = dict(case, frames=frames)
+    return out
+
+
+def limit_roundtrip(case, root, ps=None):
+    """store `case` with the real PathStorage.output, load it with load_path under the (possibly lowered)
+    default limit `case['deflim']`; returns a record with the predicate's verdict and what the tie compares"""
+    np, PathStorage, Path, load_path, REPEX_state, System = _imports()
+    full = expand_case(case)
+    load = os.path.join(root, "load")
+    pdir = os.path.join(load, str(full["pn"]))
+    acc = os.path.join(pdir, "accepted")
+    rec = {"case": case, "nfr": len(full["frames"])}
+    try:
+        p = build_path(full, root, Path, System)
+        moved = (ps or PathStorage()).output(full["step"], {"path": p, "dir": load})
+        rec["moved"] = f"{'-' if moved.maxlen is None else moved.maxlen} {moved.length}"
+        rec["acc"] = sorted(os.listdir(acc))
+        rec["files"] = {n: file_tokens(os.path.join(pdir, n)) for n in ("traj.txt", "order.txt", "energy.txt")} \
+            if len(full["frames"]) <= 2000 else None
+    except Exception as e:  # noqa: BLE001
+        rec["store_err"] = ekind(e)
+        rec["pred"] = f"PathStorage.output raised {type(e).__name__}: {e}"
+        return rec
+    try:
+        with default_maxlen(case.get("deflim")) as patched:
+            rec["patched"] = patched
+            lp = load_path(pdir)
+        rec["lp_maxlen"] = "-" if lp.maxlen is None else str(lp.maxlen)
+        rec["loaded"] = show_loaded(lp, acc) if len(full["frames"]) <= 2000 else f"{lp.length} …"
+        rec["pred"] = roundtrip_predicate(full, lp, acc, root)
+    except Exception as e:  # noqa: BLE001
+        rec["loaded"] = ekind(e)
+        rec["lp_maxlen"] = None
+        rec["pred"] = f"load_path raised {type(e).__name__}: {e}"
+    return rec
+
+
+def gen_limit_case(rng, k):
+    """short paths that cross a lowered default limit D: lengths D-1, D, D+1, D+2, 2D+1 …; the stored path's own
+    maxlen None / = length / length+1 / large; every 9th case an object LONGER than its own maxlen (no code path
+    builds one; model comparison only)"""
+    D = rng.choice([1, 2, 3, 4, 5, 8])
+    n = max(1, rng.choice([D - 1, D, D + 1, D + 1, D + 2, 2 * D + 1, D + rng.randint(1, 9)]))
+    nfiles = rng.randint(1, min(3, n))
+    ncol = rng.choice([1, 1, 2, 3])
+    frames = []
+    for i in range(n):
+        fi = (i * nfiles) // n
+        frames.append({"dir": f"w{fi % 2}", "base": f"e{k % 7}_{fi}_traj{'BF'[fi % 2]}.xyz", "idx": i, "rev": fi == 0 and nfiles > 1,
+                       "order": [rng.randrange(-10**7, 10**7) for _ in range(ncol)],
+                       "vpot": rng.choice([None, rng.randrange(-10**6, 10**6)]), "ekin": rng.choice([None, 0, 123456])})
+    over = k % 9 == 8 and n >= 2
+    maxlen = rng.randint(1, n - 1) if over else rng.choice([None, n, n, n + 1, 10000])
+    return {"step": rng.randrange(0, 1000), "pn": rng.randrange(0, 50), "gen": ("sh", 0.5, 3, 10), "frames": frames,
+            "deflim": D, "maxlen": maxlen, "overlong": over}
+
+
+def part_a_limits(ctx, tmp):
+    """boundary class around the default limit of `Path()`: load_path must return ALL stored frames"""
+    rng = ctx.rng
+    np, PathStorage, Path, load_path, REPEX_state, System = _imports()
+    ps = PathStorage()
+    recs = []
+    for k in range(90 if ctx.quick else 600):
+        case = gen_limit_case(rng, k)
+        root = os.path.join(tmp, f"l{k}")
+        os.makedirs(root)
+        recs.append(limit_roundtrip(case, root, ps))
+        shutil.rmtree(root, ignore_errors=True)
+    # the real default (100 000): one path just above it in the quick tier, the whole boundary in the thorough tier
+    big = [{"n": 100001, "nfiles": 2}] if ctx.quick else \
+        [{"n": 99999, "nfiles": 3}, {"n": 100000, "nfiles": 4}, {"n": 100001, "nfiles": 4}, {"n": 100002, "nfiles": 1},
+         {"n": 120500, "nfiles": 6, "energies": "some", "ncv": 2}]
+    for j, sp in enumerate(big):
+        case = {"step": 3 + j, "pn": 60 + j, "gen": ("sh", 0.5, 3, 10), "spec": sp, "maxlen": sp["n"] + (j % 2), "deflim": None}
+        root = os.path.join(tmp, f"L{j}")
+        os.makedirs(root)
+        recs.append(limit_roundtrip(case, root, ps))
+        shutil.rmtree(root, ignore_errors=True)
+    outs = None
+    if ctx._driver_ok:
+        small = [r for r in recs if "frames" in r["case"]]
+        outs = dict(zip([id(r) for r in small], ctx.driver([
+            "storeP " + ("-" if r["case"]["maxlen"] is None else str(r["case"]["maxlen"])) + " " + str(r["case"]["deflim"]) + " p "
+            + store_line(r["case"])[len("store "):] for r in small])))
+    for r in recs:
+        case = r["case"]
+        n, D = r["nfr"], case.get("deflim")
+        Dv = 100000 if D is None else D
+        where = "below" if n < Dv else "at" if n == Dv else "above"
+        ctx.count(1, branch=f"A:limit:{'real-default' if D is None else 'lowered-default'}:{where}" + (":overlong-object" if case.get("overlong") else ""))
+        ctx.distinct(("Alim", repr(case)))
+        rep = {"part": "A", "case": case}
+        if r.get("patched") is False:
+            ctx.hit("A:limit:patch-ineffective")
+        if not case.get("overlong") and r["pred"] is not None:
+            ctx.fail("C14:roundtrip", r["pred"] + (f" (default limit of Path() lowered to {D} for this load)" if D is not None else ""), rep)
+        if outs is not None and id(r) in outs and "store_err" not in r:
+            secs = dict((x[:1], x[2:].strip()) for x in outs[id(r)].split(" | "))
+            for name, key in (("traj.txt", "T"), ("order.txt", "O"), ("energy.txt", "E")):
+                model_t = [ln.split() for ln in secs[key].split(" ; ")]
+                if r["files"][name] != model_t:
+                    ctx.disagree({"fn": "storeObj:" + name, "case": case}, r["files"][name], model_t)
+            if sorted(secs["A"].split()) != r["acc"]:
+                ctx.disagree({"fn": "storeObj:accepted", "case": case}, r["acc"], secs["A"])
+            if secs["M"] != r["moved"]:
+                ctx.disagree({"fn": "storeObj:returned-path(maxlen,length)", "case": case}, r["moved"], secs["M"])
+            code_l = r["loaded"] if r["lp_maxlen"] is None else r["lp_maxlen"] + " " + r["loaded"]
+            if secs["L"] != code_l and r.get("patched") is not False:
+                ctx.disagree({"fn": "loadPath∘storeObj", "case": case}, code_l, secs["L"])
+        if len(recs) and r is recs[0] or r is recs[-1]:
+            ctx.sample({"part": "A:limit", "frames": n, "deflim": D, "maxlen": case["maxlen"], "loaded": r["loaded"][:80]})
+
+
+
+# --------------------------------------------------------------------------- part A, text level classes
+def gen_float(rng):
+    """floats that are NOT k·10⁻⁶: dyadic ties of '{:.6f}' (odd multiples of 2⁻⁷·5⁻⁶·… e.g. 1/128), tiny negatives
+    ('-0.000000'), −0.0, values that overflow the column width, NaN; ≤ 15 significant digits in the file"""
+    kind = rng.choice(["tie", "tie", "dyadic", "dyadic", "tiny", "negzero", "wide", "nan", "plain", "half-ulp"])
+    if kind == "tie":       # x·10⁶ = n + ½ exactly  ⇔  x = (2n+1)·5⁶/(2⁷·5⁶·…): odd multiples of 1/128 are representable
+        return rng.choice([-1, 1]) * (2 * rng.randrange(0, 5000) + 1) / 128.0
+    if kind == "dyadic":
+        return rng.choice([-1, 1]) * rng.randrange(0, 2 ** 20) / 2.0 ** rng.randint(1, 30)
+    if kind == "tiny":
+        return rng.choice([-1, 1]) * rng.choice([1e-7, 4.9e-7, 5e-7, 5.1e-7, 1e-300, 2.5e-7])
+    if kind == "negzero":
+        return -0.0
+    if kind == "wide":
+        return rng.choice([-1, 1]) * (rng.randrange(10 ** 6, 10 ** 8) + rng.randrange(0, 10 ** 6) / 1e6)
+    if kind == "nan":
+        return float("nan")
+    if kind == "half-ulp":
+        return rng.randrange(-10 ** 6, 10 ** 6) / 1e6 + rng.choice([-1, 1]) * 4.999e-7
+    return rng.uniform(-50, 50)
+
+
+def fhex(x):
+    return None if x is None else "nan" if math.isnan(x) else float(x).hex()
+
+
+def gen_text_case(rng, k):
+    nfr = rng.choice([1, 2, 3, 5, 8])
+    nfiles = rng.randint(1, min(3, nfr))
+    long_name = rng.random() < 0.3
+    files = [(f"w{j % 2}", (f"a_very_long_trajectory_file_name_{k}_{j}_trajF.lammpstrj" if long_name else f"e{k % 10}_{j}_traj{'BF'[j % 2]}.xyz"))
+             for j in range(nfiles)]
+    ncol = rng.choice([1, 2, 3])
+    frames = []
+    for i in range(nfr):
+        d, b = files[(i * nfiles) // nfr]
+        idx = rng.choice([i, 0, None, -1, 12345678901, rng.randrange(0, 10 ** 6)])
+        vp = rng.choice([None, gen_float(rng)])
+        ek = rng.choice([None, gen_float(rng)])
+        frames.append({"dir": d, "base": b, "idx": idx, "rev": rng.random() < 0.4, "order": [], "vpot": None, "ekin": None,
+                       "of": [fhex(gen_float(rng)) for _ in range(ncol)], "vf": fhex(vp), "kf": fhex(ek)})
+    gen = rng.choice([("sh", 0.5, 3, 10), ("wf", 1.25, 0, 7), ("ld", float("nan"), 0, 0), "ki", None, ("s+", -0.0, 1, 2)])
+    return {"step": rng.choice([0, 7, 123456789, rng.randrange(0, 10 ** 5)]), "pn": rng.randrange(0, 500), "gen": gen, "frames": frames}
+
+
+TEXT_DAMAGE = ["tabs", "crlf", "cr-only", "no-final-newline", "trailing-blank-lines", "leading-blank-lines", "comment-mid-rows",
+               "hash-token-row", "triple-comment", "ws-only-line-mid", "vt-ff-whitespace", "extra-token-traj-row",
+               "indented-rows", "trailing-spaces", "negative-step-col", "empty-file", "comment-after-rows", "hash-glued-header"]
+
+
+def text_damage(kind, pdir, rng):
+    """character-level variants of a stored archive (what read_some_lines' strip / startswith / split see)"""
+    name = rng.choice(list(NAMES3))
+    f = os.path.join(pdir, name)
+    with open(f, "rb") as fh:
+        b = fh.read()
+    lines = b.split(b"\n")[:-1]
+    k = rng.randrange(2, len(lines)) if len(lines) > 2 else None
+    if kind == "tabs":
+        b = re.sub(rb" +", b"\t", b)
+    elif kind == "crlf":
+        b = b.replace(b"\n", b"\r\n")
+    elif kind == "cr-only":
+        b = b.replace(b"\n", b"\r")
+    elif kind == "no-final-newline":
+        b = b[:-1]
+    elif kind == "trailing-blank-lines":
+        b = b + rng.choice([b"\n", b"\n\n", b"   \n", b" \n\t\n"])
+    elif kind == "leading-blank-lines":
+        b = rng.choice([b"\n", b"  \n\n"]) + b
+    elif kind == "comment-mid-rows" and k is not None:
+        b = b"\n".join(lines[:k] + [rng.choice([b"# note", b"#", b"  # indented", b"#12 not a row"])] + lines[k:]) + b"\n"
+    elif kind == "hash-token-row" and k is not None:
+        lines[k] = b"#" + lines[k].lstrip()
+        b = b"\n".join(lines) + b"\n"
+    elif kind == "triple-comment":
+        b = b"\n".join(lines[:1] + [b"# another comment line"] + lines[1:]) + b"\n"
+    elif kind == "ws-only-line-mid" and k is not None:
+        b = b"\n".join(lines[:k] + [rng.choice([b"", b"   ", b"\t"])] + lines[k:]) + b"\n"
+    elif kind == "vt-ff-whitespace" and k is not None:
+        lines[k] = lines[k].replace(b"  ", b"\x0b\x0c", 1) + b"\x1f"
+        b = b"\n".join(lines) + b"\n"
+    elif kind == "extra-token-traj-row" and k is not None:
+        lines[k] = lines[k] + b"  extra"
+        b = b"\n".join(lines) + b"\n"
+    elif kind == "indented-rows":
+        b = b"\n".join([b"   " + ln for ln in lines]) + b"\n"
+    elif kind == "trailing-spaces":
+        b = b"\n".join([ln + b"   " for ln in lines]) + b"\n"
+    elif kind == "negative-step-col" and k is not None:
+        t = lines[k].split()
+        t[0] = b"-" + t[0]
+        lines[k] = b" ".join(t)
+        b = b"\n".join(lines) + b"\n"
+    elif kind == "empty-file":
+        b = b""
+    elif kind == "comment-after-rows":
+        b = b + b"# Cycle: 9, status: ACC\n# header\n" + b"\n".join(lines[2:]) + b"\n"
+    elif kind == "hash-glued-header":
+        b = b.replace(b"# ", b"#", 2)
+    with open(f, "wb") as fh:
+        fh.write(b)
+    return name
+
+
+def part_a_text(ctx, tmp):
+    """(1) floats beyond k·10⁻⁶ — rounding ties, −0.0, NaN, fields wider than their column, long names, odd indices —
+    stored and loaded twice, the files compared byte for byte with the text-level model; (2) character-level variants
+    of stored archives through load_path against the model's reader"""
+    rng = ctx.rng
+    np, PathStorage, Path, load_path, REPEX_state, System = _imports()
+    ps = PathStorage()
+    recs = []
+    n_float = 80 if ctx.quick else 800
+    n_dmg = 180 if ctx.quick else 1800
+    for k in range(n_float + n_dmg):
+        case = gen_text_case(rng, k)
+        root = os.path.join(tmp, f"t{k}")
+        os.makedirs(root)
+        load = os.path.join(root, "load")
+        pdir = os.path.join(load, str(case["pn"]))
+        acc = os.path.join(pdir, "accepted")
+        rec = {"case": case}
+        try:
+            p = build_path(case, root, Path, System)
+            moved = ps.output(case["step"], {"path": p, "dir": load})
+            rec["moved"] = f"{'-' if moved.maxlen is None else moved.maxlen} {moved.length}"
+            if k >= n_float:
+                rec["damage"] = TEXT_DAMAGE[(k - n_float) % len(TEXT_DAMAGE)]
+                rec["damaged_file"] = text_damage(rec["damage"], pdir, rng)
+            rec["raw"] = raw_files(pdir)
+            rec["acc"] = sorted(os.listdir(acc))
+            lp = load_path(pdir)
+            rec["loaded_t"] = show_loaded_t(lp, acc)
+            if "damage" not in rec:
+                rec["pred"] = roundtrip_predicate(case, lp, acc, root)
+                # second trip: the LOADED floats (the doubles nearest to the decimals) are written again
+                pn2 = case["pn"] + 1000
+                lp.path_number, lp.generated, lp.status, lp.maxlen = pn2, case["gen"], "ACC", 10000
+                case2 = {"step": case["step"] + 1, "pn": pn2, "gen": case["gen"], "frames": [
+                    dict(f, dir=os.path.relpath(acc, root), idx=0 if f["idx"] is None else f["idx"],
+                         of=[fhex(float(o)) for o in s.order], vf=fhex(s.vpot), kf=fhex(s.ekin))
+                    for f, s in zip(case["frames"], lp.phasepoints)]}
+                ps.output(case2["step"], {"path": lp, "dir": load})
+                pd2 = os.path.join(load, str(pn2))
+                rec["case2"], rec["raw2"], rec["acc2"] = case2, raw_files(pd2), sorted(os.listdir(os.path.join(pd2, "accepted")))
+                lp2 = load_path(pd2)
+                rec["loaded2_t"] = show_loaded_t(lp2, os.path.join(pd2, "accepted"))
+                if rec["raw2"]["order.txt"].split(b"\n")[2:] != rec["raw"]["order.txt"].split(b"\n")[2:] or \
+                        rec["raw2"]["energy.txt"].split(b"\n")[2:] != rec["raw"]["energy.txt"].split(b"\n")[2:]:
+                    rec["pred2"] = "the rows of order.txt / energy.txt written from the loaded path differ from the first archive's"
+        except Exception as e:  # noqa: BLE001
+            rec.setdefault("loaded_t", ekind(e))
+            if "damage" not in rec:
+                rec["pred"] = f"raised {type(e).__name__}: {e}"
+        recs.append(rec)
+        shutil.rmtree(root, ignore_errors=True)
+    outs = {}
+    if ctx._driver_ok:
+        lines, keys = [], []
+        for k, rec in enumerate(recs):
+            if "raw" not in rec:
+                continue
+            if "damage" in rec:
+                if in_reader_domain(rec["raw"]):
+                    lines.append(loadT_line(rec["acc"], rec["raw"], deflim=100000))
+                    keys.append((k, 0))
+                else:
+                    ctx.hit("A:text:outside-reader-domain")
+            else:
+                lines.append(storeT_line(rec["case"], 10000, 100000))
+                keys.append((k, 0))
+                if "raw2" in rec:
+                    lines.append(storeT_line(rec["case2"], 10000, 100000))
+                    keys.append((k, 1))
+        outs = dict(zip(keys, ctx.driver(lines))) if lines else {}
+    for k, rec in enumerate(recs):
+        case, dmg = rec["case"], rec.get("damage")
+        ctx.count(1, branch="A:text:" + (dmg or "floats"))
+        ctx.distinct(("Atext", dmg, repr(case)))
+        rep = {"part": "A", "case": case}
+        if dmg is None:
+            if rec.get("pred") is not None:
+                ctx.fail("C14:roundtrip", rec["pred"], rep)
+            if rec.get("pred2") is not None:
+                ctx.fail("C14:roundtrip", "second round trip: " + rec["pred2"], rep)
+        if (k, 0) in outs:
+            if dmg is None:
+                compare_text_store(ctx, case, rec["raw"], rec["acc"], rec.get("moved"), rec["loaded_t"], outs[(k, 0)])
+            elif outs[(k, 0)] != rec["loaded_t"]:
+                ctx.disagree({"fn": "load_path(text variant)", "damage": dmg, "file": rec.get("damaged_file"), "case": case,
+                              "files": {n: None if b is None else b.decode("latin1") for n, b in rec["raw"].items()}},
+                             rec["loaded_t"], outs[(k, 0)])
+        if (k, 1) in outs:
+            compare_text_store(ctx, rec["case2"], rec["raw2"], rec["acc2"], None, rec.get("loaded2_t"), outs[(k, 1)], fn="storeT(second trip)")
+        if k % 61 == 0:
+            ctx.sample({"part": "A:text", "damage": dmg, "order.txt": (rec.get("raw", {}).get("order.txt") or b"").decode("latin1")[:240],
+                        "loaded": rec.get("loaded_t", "")[:120]})
+    # the rounding rule itself on further floats: '{:.6f}' against round6
+    xs = [gen_float(rng) for _ in range(300 if ctx.quick else 5000)]
+    xs = [abs(x) for x in xs if not math.isnan(x)]
+    if ctx._driver_ok and xs:
+        from fractions import Fraction
+        ans = ctx.driver([f"round6 {Fraction(x).numerator} {Fraction(x).denominator}" for x in xs])
+        for x, a in zip(xs, ans):
+            ctx.count(1, branch="A:text:round6")
+            code = f"{x:.6f}".replace(".", "").lstrip("0") or "0"
+            if a != code:
+                ctx.disagree({"fn": "'{:.6f}'.format", "x": x.hex()}, code, a)
+
+
+# --------------------------------------------------------------------------- part A, file operations of _move_path
+MOVE_NAMES = ["s_0_trajB.xyz", "s_1_trajF.xyz", "s_2_trajF.xyz", "a.b.trr", ".hidden", "noext", "x..y", "conf.g96", "t.lammpstrj"]
+MOVE_KEEPS = [[], [], [".adp"], [".adp", ".log"], [".xyz"], [".edr", ".adp", ".log"], ["_extra.txt"], [".adp", ".adp"]]
+
+
+def gen_move_case(rng, k):
+    ndirs = rng.randint(1, 3)
+    nfiles = rng.randint(1, 4)
+    collide = k % 7 == 6 and ndirs > 1 and nfiles > 1
+    names = rng.sample(MOVE_NAMES, nfiles)
+    files = []
+    for j in range(nfiles):
+        d = f"w{rng.randrange(ndirs)}"
+        files.append([d, names[j]])
+    if collide:
+        files[1][1] = files[0][1]
+        files[1][0] = "w1" if files[0][0] != "w1" else "w0"
+    files = [tuple(f) for f in dict.fromkeys(tuple(f) for f in files)]
+    nfr = rng.randint(len(files), len(files) + 4)
+    order = [files[(i * len(files)) // nfr] if rng.random() < 0.8 else rng.choice(files) for i in range(nfr)]
+    keep = rng.choice(MOVE_KEEPS)
+    side = sorted({(d, os.path.splitext(n)[0] + e) for d, n in files for e in (".adp", ".log", ".edr", "_extra.txt", ".xyz")
+                   if rng.random() < 0.45} - set(files))
+    used = list(dict.fromkeys(order))
+    stale = sorted({rng.choice(used)[1] for _ in range(1)} | ({os.path.splitext(rng.choice(used)[1])[0] + ".adp"} if rng.random() < 0.5 else set())) \
+        if rng.random() < 0.25 else []
+    missing = rng.choice(used) if k % 19 == 18 else None
+    return {"files": files, "frames": order, "keep": keep, "side": side, "stale": stale, "missing": missing,
+            "collide": collide, "maxlen": rng.choice([None, nfr, nfr + 1, 10000]), "pn": rng.randrange(0, 30)}
+
+
+def run_move_case(case, root):
+    """the real PathStorage(keep_traj_fnames).output on a real source tree; returns the tree afterwards with contents"""
+    np, PathStorage, Path, load_path, REPEX_state, System = _imports()
+    tag = {}
+    cnt = 1
+    for d, n in list(case["files"]) + [tuple(x) for x in case["side"]]:
+        os.makedirs(os.path.join(root, d), exist_ok=True)
+        if (d, n) == (tuple(case["missing"]) if case["missing"] else None):
+            continue
+        with open(os.path.join(root, d, n), "w") as fh:
+            fh.write(f"{cnt}\n")
+        tag[(d, n)] = cnt
+        cnt += 1
+    load = os.path.join(root, "load")
+    accrel = os.path.join("load", str(case["pn"]), "accepted")
+    acc = os.path.join(root, accrel)
+    os.makedirs(acc)
+    for n in case["stale"]:
+        with open(os.path.join(acc, n), "w") as fh:
+            fh.write(f"{cnt}\n")
+        tag[(accrel, n)] = cnt
+        cnt += 1
+    p = Path(maxlen=case["maxlen"])
+    for i, (d, n) in enumerate(case["frames"]):
+        s = System()
+        s.order = [float(i)]
+        s.config = (os.path.join(root, d, n), i)
+        p.phasepoints.append(s)
+    p.path_number, p.generated, p.status = case["pn"], ("sh", 0, 0, 0), "ACC"
+    rec = {"before": dict(tag), "accrel": accrel}
+    try:
+        moved = PathStorage(keep_traj_fnames=list(case["keep"])).output(1, {"path": p, "dir": load})
+        rec["err"] = "ok"
+        rec["moved"] = f"{'-' if moved.maxlen is None else moved.maxlen} {moved.length}"
+        rec["moved_cfg"] = [(os.path.relpath(os.path.dirname(s.config[0]), root), os.path.basename(s.config[0])) for s in moved.phasepoints]
+    except Exception as e:  # noqa: BLE001
+        rec["err"] = ekind(e)
+    # the end-to-end function: load what was just stored
+    if rec["err"] == "ok":
+        try:
+            lp = load_path(os.path.join(load, str(case["pn"])))
+            rec["loaded"] = ("-" if lp.maxlen is None else str(lp.maxlen)) + " " + show_loaded(lp, acc)
+        except Exception as e:  # noqa: BLE001
+            rec["loaded"] = ekind(e)
+    else:
+        rec["loaded"] = rec["err"]
+    after = {}
+    for d, _dirs, fls in os.walk(root):
+        rel = os.path.relpath(d, root)
+        for f in fls:
+            if rel == os.path.join("load", str(case["pn"])):
+                continue        # the three text files
+            with open(os.path.join(d, f)) as fh:
+                after[(rel, f)] = int(fh.read().strip())
+    rec["after"] = after
+    return rec
+
+
+def part_a_move(ctx, tmp):
+    """_move_path as file operations: sources in 1–3 directories, keep_traj_fnames side files present or not, names
+    with several / leading / no dots, stale files already in accepted/, a missing source, two sources with one basename"""
+    rng = ctx.rng
+    cases, recs = [], []
+    for k in range(120 if ctx.quick else 1500):
+        case = gen_move_case(rng, k)
+        root = os.path.join(tmp, f"m{k}")
+        os.makedirs(root)
+        try:
+            rec = run_move_case(case, root)
+        except Exception as e:  # noqa: BLE001
+            rec = {"harness": f"{type(e).__name__}: {e}"}
+        shutil.rmtree(root, ignore_errors=True)
+        cases.append(case)
+        recs.append(rec)
+    outs = None
+    if ctx._driver_ok:
+        lines = []
+        for case, rec in zip(cases, recs):
+            if "harness" in rec:
+                lines.append("noop")
+                continue
+            fsl = [(d, n, c) for (d, n), c in rec["before"].items()]
+            lines.append(" ".join(["move", lst(case["keep"], hexs), hexs(rec["accrel"]), "-" if case["maxlen"] is None else str(case["maxlen"]),
+                                   str(len(fsl))] + [f"{hexs(d)} {hexs(n)} {c}" for d, n, c in fsl]
+                                  + [str(len(case["frames"]))] + [f"{hexs(d)} {hexs(n)}" for d, n in case["frames"]]))
+        outs = ctx.driver(lines)
+        lines2 = []
+        for case, rec in zip(cases, recs):
+            if "harness" in rec:
+                lines2.append("noop")
+                continue
+            fsl = [(d, n, c) for (d, n), c in rec["before"].items()]
+            lines2.append(" ".join(["e2e", lst(case["keep"], hexs), hexs(rec["accrel"]), "-" if case["maxlen"] is None else str(case["maxlen"]),
+                                    "100000", "1", lst(str(("sh", 0, 0, 0)).split(), hexs), str(len(fsl))]
+                                   + [f"{hexs(d)} {hexs(n)} {c}" for d, n, c in fsl] + [str(len(case["frames"]))]
+                                   + [f"{hexs(d)} {hexs(n)} {i} 0 1 {i * 1000000} - -" for i, (d, n) in enumerate(case["frames"])]))
+        outs2 = ctx.driver(lines2)
+        for case, rec, o2 in zip(cases, recs, outs2):
+            if "harness" not in rec and o2 != rec.get("loaded"):
+                ctx.disagree({"fn": "outputThenLoad (PathStorage.output on the file system, then load_path)", "case": case}, rec.get("loaded"), o2)
+    for k, (case, rec) in enumerate(zip(cases, recs)):
+        kind = "missing-source" if case["missing"] else "same-basename" if case["collide"] else "stale-dest" if case["stale"] else \
+            "keep" if case["keep"] else "plain"
+        ctx.count(1, branch="A:move:" + kind)
+        ctx.distinct(("Amove", repr(case)))
+        if "harness" in rec:
+            ctx.extra.setdefault("harness_errors", []).append(rec["harness"])
+            continue
+        rep = {"part": "A-move", "case": case}
+        # ---- the property on the real tree: every frame's file is under accepted/ with the content its source had
+        if not case["missing"] and not case["collide"]:
+            bad = None
+            if rec["err"] != "ok":
+                bad = f"PathStorage.output raised {rec['err']}"
+            else:
+                for (d, n), (md, mn) in zip(case["frames"], rec["moved_cfg"]):
+                    if md != rec["accrel"] or mn != n:
+                        bad = f"frame file {d}/{n} is referenced as {md}/{mn}, not under {rec['accrel']}"
+                    elif rec["after"].get((rec["accrel"], n)) != rec["before"].get((d, n)):
+                        bad = f"{rec['accrel']}/{n} is missing or holds another file's content"
+                    elif (d, n) in rec["after"]:
+                        bad = f"source {d}/{n} is still there (copied, not moved)"
+                    if bad:
+                        break
+                if bad is None and len(rec["moved_cfg"]) != len(case["frames"]):
+                    bad = f"returned path has {len(rec['moved_cfg'])} frames, stored one {len(case['frames'])}"
+                if bad is None:
+                    for d, n in dict.fromkeys(tuple(x) for x in case["frames"]):
+                        for e in case["keep"]:
+                            sn = os.path.splitext(n)[0] + e
+                            if (d, sn) in rec["before"] and rec["after"].get((rec["accrel"], sn)) != rec["before"][(d, sn)]:
+                                bad = f"kept side file {sn} was not moved to accepted/"
+            if bad:
+                ctx.fail("C14:stored-files-not-under-own-dir", bad, rep)
+        if outs is not None:
+            mo = outs[k].split(" | ")
+            model_after = {}
+            for t in (mo[2].split() if len(mo) > 2 else []):
+                nm, c = t.rsplit("=", 1)
+                d, n = nm.split("/")
+                model_after[(bytes.fromhex(d).decode(), bytes.fromhex(n).decode())] = int(c)
+            if mo[0] != rec["err"]:
+                ctx.disagree({"fn": "_move_path:error", "case": case}, rec["err"], mo[0])
+            elif rec["err"] == "ok" and mo[1] != rec["moved"]:
+                ctx.disagree({"fn": "_move_path:returned-path", "case": case}, rec["moved"], mo[1])
+            elif model_after != rec["after"]:
+                ctx.disagree({"fn": "_move_path:files", "case": case},
+                             sorted(f"{d}/{n}={c}" for (d, n), c in rec["after"].items()),
+                             sorted(f"{d}/{n}={c}" for (d, n), c in model_after.items()))
+        if k % 37 == 0:
+            ctx.sample({"part": "A:move", "case": case, "err": rec.get("err"), "after": sorted(f"{d}/{n}" for d, n in rec.get("after", {}))[:12]})
+
+
+# --------------------------------------------------------------------------- part A, load_paths_from_disk
+def part_a_lpfd(ctx, tmp):
+    """load_paths_from_disk on a load directory with several stored paths: every active path comes back whole with
+    maxlen = the configured maxlength (also when it is longer than the — lowered — default limit of Path()), its number
+    and generated[0] = 're'/'ld'; a missing / damaged archive raises (compared with the model)"""
+    rng = ctx.rng
+    np, PathStorage, Path, load_path, REPEX_state, System = _imports()
+    from infretis.classes.path import load_paths_from_disk
+    ps = PathStorage()
+    recs = []
+    for k in range(40 if ctx.quick else 400):
+        root = os.path.join(tmp, f"d{k}")
+        os.makedirs(root)
+        load = os.path.join(root, "load")
+        npaths = rng.randint(1, 4)
+        cases = []
+        for j in range(npaths):
+            c = gen_path_case(rng)
+            c["pn"] = 3 * j + rng.randrange(3)
+            if all(len(f["order"]) == 0 for f in c["frames"]) and len(c["frames"]) > 1:
+                pass
+            cases.append(c)
+        D = rng.choice([None, 2, 3, 5])
+        maxlength = rng.choice([1, 7, 2000, 100000])
+        restarted = rng.random() < 0.5
+        bad = rng.choice(["missing-dir", "no-order", "drop-moved-file"]) if k % 5 == 4 else None
+        rec = {"cases": cases, "deflim": D, "maxlength": maxlength, "restarted": restarted, "bad": bad}
+        try:
+            for c in cases:
+                sub = os.path.join(root, f"src{c['pn']}")
+                os.makedirs(sub)
+                ps.output(c["step"], {"path": build_path(c, sub, Path, System), "dir": load})
+            active = [c["pn"] for c in cases]
+            rng.shuffle(active)
+            if bad == "missing-dir":
+                active.insert(rng.randrange(len(active) + 1), 99)
+            elif bad is not None:
+                damage(bad, os.path.join(load, str(active[-1])), rng)
+            rec["active"] = active
+            rec["arch"] = {pn: ({n: file_tokens(os.path.join(load, str(pn), n)) for n in NAMES3},
+                                sorted(os.listdir(os.path.join(load, str(pn), "accepted")))) for pn in set(active) if pn != 99}
+            cfg = {"simulation": {"load_dir": load, "tis_set": {"maxlength": maxlength}}, "current": {"active": list(active)}}
+            if restarted:
+                cfg["current"]["restarted_from"] = 5
+            with default_maxlen(D) as patched:
+                rec["patched"] = patched
+                paths = load_paths_from_disk(cfg)
+            rec["out"] = " ; ".join(f"{p.path_number}:{p.generated[0]}:{'-' if p.maxlen is None else p.maxlen}:"
+                                    + show_loaded(p, os.path.join(load, str(p.path_number), "accepted")) for p in paths)
+            if bad is None:
+                preds = [roundtrip_predicate(c, p, os.path.join(load, str(c["pn"]), "accepted"), os.path.join(root, f"src{c['pn']}"))
+                         for c, p in zip(sorted(cases, key=lambda c: active.index(c["pn"])), paths)]
+                preds += ["path numbers " + str([p.path_number for p in paths]) + f" ≠ active {active}"] if [p.path_number for p in paths] != active else []
+                rec["pred"] = next((x for x in preds if x is not None), None)
+        except Exception as e:  # noqa: BLE001
+            rec["out"] = ekind(e)
+            if bad is None:
+                rec["pred"] = f"load_paths_from_disk raised {type(e).__name__}: {e}"
+        recs.append(rec)
+        shutil.rmtree(root, ignore_errors=True)
+    outs = None
+    if ctx._driver_ok:
+        lines = []
+        for rec in recs:
+            if "arch" not in rec:
+                lines.append("noop")
+                continue
+            parts = ["lpfd", "100000" if rec["deflim"] is None else str(rec["deflim"]), "p", str(rec["maxlength"]),
+                     "1" if rec["restarted"] else "0", lst(rec["active"]), str(len(rec["arch"]))]
+            ok = True
+            for pn, (files, acc) in rec["arch"].items():
+                fa = [file_arg(files[n]) for n in NAMES3]
+                ok = ok and all(a is not None for a in fa)
+                parts += [str(pn), lst(acc, hexs)] + ["-" if a is None else a for a in fa]
+            lines.append(" ".join(parts) if ok else "noop")
+        outs = ctx.driver(lines)
+    for k, rec in enumerate(recs):
+        ctx.count(1, branch="A:lpfd:" + (rec["bad"] or "ok") + (":lowered-default" if rec["deflim"] else ""))
+        ctx.distinct(("Alpfd", repr(rec["cases"]), rec["deflim"], rec["maxlength"]))
+        if rec.get("pred") is not None:
+            ctx.fail("C14:roundtrip", "load_paths_from_disk: " + rec["pred"],
+                     {"part": "A", "case": dict(rec["cases"][0], deflim=rec["deflim"]), "lpfd": {k2: rec[k2] for k2 in ("deflim", "maxlength", "restarted")}})
+        if outs is not None and outs[k] != "bad-op" and "arch" in rec and rec.get("patched") is not False and outs[k] != rec["out"]:
+            ctx.disagree({"fn": "load_paths_from_disk", "active": rec.get("active"), "deflim": rec["deflim"], "maxlength": rec["maxlength"],
+                          "bad": rec["bad"], "cases": rec["cases"]}, rec["out"], outs[k])
+
+
 def part_a(ctx, tmp):
     np, PathStorage, Path, load_path, REPEX_state, System = _imports()
     rng = ctx.rng
@@ -325,6 +1106,8 @@ def part_a(ctx, tmp):
                 sorted(os.listdir(acc)) == sorted({os.path.basename(s) for s in srcs}) and \
                 all(os.path.dirname(s.config[0]) == acc for s in moved.phasepoints) and moved.length == p.length
             rec["files"] = {n: file_tokens(os.path.join(pdir, n)) for n in ("traj.txt", "order.txt", "energy.txt")}
+            rec["raw"] = raw_files(pdir)
+            rec["moved"] = f"{'-' if moved.maxlen is None else moved.maxlen} {moved.length}"
             rec["acc"] = sorted(os.listdir(acc))
             if not damaged:
                 # the same path through a FRESH storage object: byte-identical archive
@@ -344,15 +1127,18 @@ def part_a(ctx, tmp):
             rec["damage"] = DAMAGE[(k - n_ok) % len(DAMAGE)]
             damage(rec["damage"], pdir, rng)
             rec["files"] = {n: file_tokens(os.path.join(pdir, n)) for n in ("traj.txt", "order.txt", "energy.txt")}
+            rec["raw"] = raw_files(pdir)
             rec["acc"] = sorted(os.listdir(acc))
         try:
             lp = load_path(pdir)
             rec["loaded"] = show_loaded(lp, acc)
+            rec["loaded_t"] = show_loaded_t(lp, acc)
             if "damage" not in rec:
                 rec["pred"] = roundtrip_predicate(case, lp, acc, root)
         except Exception as e:  # noqa: BLE001
             lp = None
             rec["loaded"] = ekind(e)
+            rec["loaded_t"] = ekind(e)
             rec["pred"] = f"load_path raised {type(e).__name__}: {e}"
         # ---- aliasing: an earlier loaded path is not changed by later loads / stores
         try:
@@ -420,6 +1206,21 @@ def part_a(ctx, tmp):
             else:
                 lines.append(store_line(rec["case"]))
         out = ctx.driver(lines)
+        # the same cases through the TEXT-level model: the files byte for byte, load_path on the raw text
+        tl, tk = [], []
+        for k, rec in enumerate(cases):
+            if "raw" not in rec:
+                continue
+            if "damage" in rec:
+                if in_reader_domain(rec["raw"]):
+                    tl.append(loadT_line(rec["acc"], rec["raw"], deflim=100000))
+                    tk.append(k)
+                else:
+                    ctx.hit("A:text:outside-reader-domain")
+            else:
+                tl.append(storeT_line(rec["case"], rec["case"].get("maxlen", 10000), 100000))
+                tk.append(k)
+        out_t = dict(zip(tk, ctx.driver(tl))) if tl else {}
         idx2 = [k for k, rec in enumerate(cases) if "case2" in rec]
         out2 = dict(zip(idx2, ctx.driver([store_line(cases[k]["case2"]) for k in idx2]))) if idx2 else {}
     for k, rec in enumerate(cases):
@@ -460,6 +1261,14 @@ def part_a(ctx, tmp):
                     ctx.disagree({"fn": "load∘store", "case": case}, rec["loaded"], secs["L"])
             elif not rec["skip"] and out[k] != rec["loaded"]:
                 ctx.disagree({"fn": "load_path(damaged)", "damage": dmg, "case": case, "files": rec["files"]}, rec["loaded"], out[k])
+            if k in out_t:
+                ctx.hit("A:text:compared")
+                if dmg is None:
+                    compare_text_store(ctx, case, rec["raw"], rec["acc"], rec.get("moved"), rec["loaded_t"], out_t[k])
+                elif out_t[k] != rec["loaded_t"]:
+                    ctx.disagree({"fn": "load_path(damaged, text)", "damage": dmg, "case": case,
+                                  "files": {n: None if b is None else b.decode("latin1") for n, b in rec["raw"].items()}},
+                                 rec["loaded_t"], out_t[k])
         if k % 97 == 0:
             ctx.sample({"part": "A", "damage": dmg, "frames": len(case["frames"]), "files": nf, "loaded": rec["loaded"][:160]})
 
@@ -580,7 +1389,7 @@ def run_history(h, mods, tmp):
             stale_sel = step[3] if len(step) > 3 else None
             md = inflight.pop(which % len(inflight))
             md["status"] = "ACC" if acc else "REJ"
-            ops_here = []
+            ops_here = [("X",)] if obs.pop("pending_x", False) else []     # the restart taken after the previous call
             if stale_sel is not None:
                 # a stale file (as left by an interrupted store) appears in some existing accepted/ directory
                 dirs_now = sorted(int(x) for x in os.listdir("load") if os.path.isdir(os.path.join("load", x, "accepted")))
@@ -709,8 +1518,7 @@ def run_history(h, mods, tmp):
                     inflight.append(st.prep_md_items(copy.deepcopy(base)))
                 frozen |= {q for q in lag if lag[q] > 0}
                 lag = {}
-                if obs.get("cut") is None:
-                    obs["cut"] = len(obs["ops"])
+                obs["pending_x"] = True
                 obs["restarts"] = obs.get("restarts", 0) + 1
                 continue
             inflight.append(st.prep_md_items(md))
@@ -735,6 +1543,8 @@ def hist_line(h, obs, variant="r"):
     for op in flat:
         if op[0] == "F":
             out.append("F")
+        elif op[0] == "X":
+            out.append("X")
         elif op[0] == "S":
             out += ["S", str(op[1]), op[2]]
         else:
@@ -863,17 +1673,10 @@ def replay_corpus(ctx, tmp):
         if r.get("part") == "B":
             part_b(ctx, tmp, only=[r["history"]])
         elif r.get("part") == "A":
-            np, PathStorage, Path, load_path, REPEX_state, System = _imports()
             case = r["case"]
             root = tempfile.mkdtemp(dir=tmp)
-            load = os.path.join(root, "load")
-            pdir = os.path.join(load, str(case["pn"]))
-            try:
-                p = build_path(case, root, Path, System)
-                PathStorage().output(case["step"], {"path": p, "dir": load})
-                pred = roundtrip_predicate(case, load_path(pdir), os.path.join(pdir, "accepted"), root)
-            except Exception as e:  # noqa: BLE001
-                pred = f"raised {type(e).__name__}: {e}"
+            pred = limit_roundtrip(case, root)["pred"]      # honours the case's own maxlen / lowered default limit
+            shutil.rmtree(root, ignore_errors=True)
             ctx.count(1, branch="A:corpus")
             if pred is not None:
                 ctx.fail("C14:roundtrip", pred, r)
@@ -894,6 +1697,14 @@ def run(ctx):
         replay_corpus(ctx, tmp)
         part_a(ctx, tmp)
         ctx.extra["part_a_s"] = round(ctx.elapsed(), 1)
+        part_a_limits(ctx, tmp)
+        ctx.extra["part_a_limits_s"] = round(ctx.elapsed(), 1)
+        part_a_text(ctx, tmp)
+        ctx.extra["part_a_text_s"] = round(ctx.elapsed(), 1)
+        part_a_move(ctx, tmp)
+        ctx.extra["part_a_move_s"] = round(ctx.elapsed(), 1)
+        part_a_lpfd(ctx, tmp)
+        ctx.extra["part_a_lpfd_s"] = round(ctx.elapsed(), 1)
         part_b(ctx, tmp)
         ctx.extra["part_b_s"] = round(ctx.elapsed(), 1)
     finally:
@@ -908,9 +1719,31 @@ def run(ctx):
         "at most n−1 replacements per treat_output call (the code picks one or two ensembles; n ≥ 3)",
         "pn_olds is not persisted: after a restart queued paths are never deleted (checked: their files must stay)",
         "object state is tie-only (the model is functional): ONE PathStorage stores every path of part A and each archive is compared byte-wise with a fresh object's; the loaded path is stored and loaded a second time; earlier loaded paths are re-read after later stores/loads (no aliasing)",
-        "restarts between calls (1 worker) are tie-only: a new REPEX_state is built from restart.toml + load_paths_from_disk, the predicates go on, the model comparison stops at the first restart of a history",
+        "restarts between calls (1 worker): a new REPEX_state is built from restart.toml + load_paths_from_disk; the model takes the same restart (Infretis.Store.restartSt) and the state-for-state comparison goes on across it",
         "two source files with the SAME basename inside one path overwrite each other in accepted/ (unchanged code; engines name files by ensemble, pid and counter) — not generated, reported separately",
     ]
+
+
+def replay_move(case, tmp):
+    """re-run one recorded _move_path case; 1 if a referenced file is still not under accepted/ with its content"""
+    root = os.path.join(tmp, "mv")
+    os.makedirs(root)
+    rec = run_move_case(case, root)
+    if rec["err"] != "ok":
+        print("PathStorage.output raised", rec["err"])
+        return 1
+    for (d, n), (md, mn) in zip(case["frames"], rec["moved_cfg"]):
+        if md != rec["accrel"] or mn != n or rec["after"].get((rec["accrel"], n)) != rec["before"].get((d, n)) \
+                or (d, n) in rec["after"]:
+            print("frame file", d, n, "→", md, mn, "content", rec["after"].get((rec["accrel"], n)), "expected", rec["before"].get((d, n)))
+            return 1
+    for d, n in dict.fromkeys(tuple(x) for x in case["frames"]):
+        for e in case["keep"]:
+            sn = os.path.splitext(n)[0] + e
+            if (d, sn) in rec["before"] and rec["after"].get((rec["accrel"], sn)) != rec["before"][(d, sn)]:
+                print("kept side file not moved:", sn)
+                return 1
+    return 0 if len(rec["moved_cfg"]) == len(case["frames"]) else 1
 
 
 def replay(ctx, obj):
@@ -925,20 +1758,13 @@ def replay(ctx, obj):
                 print(sig, what, where)
             want = obj.get("signature")
             return 1 if any(sig == want for sig, _w, _x in obs["fails"]) or (want is None and obs["fails"]) else 0
+        if r.get("part") == "A-move":
+            return replay_move(r["case"], tmp)
         if r.get("part") == "A":
-            np, PathStorage, Path, load_path, REPEX_state, System = _imports()
             case = r["case"]
             root = os.path.join(tmp, "a")
             os.makedirs(root)
-            load = os.path.join(root, "load")
-            pdir = os.path.join(load, str(case["pn"]))
-            try:
-                p = build_path(case, root, Path, System)
-                PathStorage().output(case["step"], {"path": p, "dir": load})
-                lp = load_path(pdir)
-                pred = roundtrip_predicate(case, lp, os.path.join(pdir, "accepted"), root)
-            except Exception as e:  # noqa: BLE001
-                pred = f"raised {type(e).__name__}: {e}"
+            pred = limit_roundtrip(case, root)["pred"]      # honours the case's own maxlen / lowered default limit
             print("predicate:", pred)
             return 0 if pred is None else 1
         print("no concrete failing input recorded:", obj.get("kind"))
